@@ -168,7 +168,7 @@ PROPS = {
         "assumptions": COMMON_ASSUMPTIONS,
     },
     "C12": {
-        "mc": ["hid_hide"], "gen": ["hide", "hide_reveal", "text_classes"],
+        "mc": ["hid_hide"], "gen": ["hide", "hide_reveal", "reveal", "text_classes"],
         "rule": "hidden values compared with RFC 2661 s4.3 computed by TLC with MD5 written in TLA+ (RFC 1321 vectors "
                 "assumed at load); block counts 1..8 (thorough: ..63); reveal of arbitrary hidden values likewise; "
                 "TLC: declarative definition = in-place loops, HiddenLength",
@@ -357,7 +357,7 @@ def owns(prop, ev, tag):
         # (a refusal of a value that is within the size limits produces no octets at all: C06's, not C07's)
         return e in ("encode", "encode_seq", "roundtrip", "chain") and tag in ("octets", "unexpected-panic")
     if prop == "C07":
-        return e in ("encode", "encode_seq", "roundtrip", "hide", "hide_reveal") and tag in (
+        return e in ("encode", "encode_seq", "roundtrip", "hide") and tag in (
             "length-field", "get-length", "get-length-spec", "oversize-accepted")
     if prop == "C08":
         # consumed extent and independence of what follows; wrong values as such are C05's business
@@ -377,8 +377,10 @@ def owns(prop, ev, tag):
         # (a panic where the reference construction yields a value is a difference from the reference too)
         if e == "hide":
             return died or tag in ("hide-value", "hide-length", "hide-type", "hide-wire-form", "unexpected-panic")
-        # (C12 speaks about hiding only; what reveal makes of arbitrary hidden values is C11's / C13's)
-        return e == "hide_reveal" and tag in ("hide-value", "hide-wire-form")
+        if e == "hide_reveal":
+            return tag in ("hide-value", "hide-wire-form", "unexpected-panic", "oversize-accepted")
+        # ("forall hidden h: reveal(h,s,rv) = ref_reveal(h,s,rv)")
+        return e == "reveal" and ev.get("v", {}).get("k") == "Hidden" and (died or tag == "reveal-value")
     if prop == "C13":
         return e == "reveal" and ev.get("v", {}).get("k") == "Hidden" and (died or tag in ("reveal-kind", "reveal-accepts-bad"))
     if prop == "C14":
